@@ -292,16 +292,22 @@ def boundary(ast):
 
 
 def check_command(ast, slc, iow, hits, f):
-    """denotation: some PCCC command of this call names the right file/type and covers the addressed word(s)"""
+    """denotation: the PCCC commands of this call that name the right file/type cover the addressed word(s)"""
     fnum, off = locate(ast, iow)
     n = (ast.get("count") or 1) * vsize(ast["ft"])
     if ast["form"] in ("bit", "bfn", "tc"):
         n = 2
     from ..slc_target import FILE_TYPES
+    # the commands of this call that name the right file and type, taken together, cover the addressed bytes
+    # (a long {count} request may legitimately travel as several consecutive commands)
+    covered = bytearray(n)
     for r in slc.pccc_log:
-        if r.get("range") and r["range"][0] == fnum and r["range"][1] <= off and off + n <= r["range"][2] \
-                and FILE_TYPES.get(r.get("ftype"), ("?",))[0] == ast["ft"]:
-            return
+        if r.get("range") and r["range"][0] == fnum and FILE_TYPES.get(r.get("ftype"), ("?",))[0] == ast["ft"]:
+            lo, hi = max(r["range"][1], off), min(r["range"][2], off + n)
+            for i in range(lo, hi):
+                covered[i - off] = 1
+    if all(covered):
+        return
     seen = [(r.get("file"), hex(r.get("ftype") or 0), r.get("elem"), r.get("sub"), r.get("size"), r.get("why")) for r in slc.pccc_log]
     hits.hit("C18", "slc.address", f"no PCCC command addressed file {fnum} type {ast['ft']} bytes {off}..{off + n}; seen {seen[:3]}",
              field="range", boundary=boundary(ast), **f)
